@@ -15,6 +15,8 @@ import subprocess
 from lib import jdfgen, vbuild, tracecheck
 
 HERE = os.path.dirname(os.path.abspath(__file__))
+# short TLC runs: few GC threads (the JVM start dominates); a large thread stack for the recursive operators of JDFSem
+JVM_SHORT = ("-Xss64m", "-XX:ParallelGCThreads=2")
 
 
 class phase(object):
@@ -234,8 +236,8 @@ def small_programs(quick):
         b = J.Builder(N=3, M=2); J.t_bcast(b, "P", "Q", "desc", "rect_desc", gather="R", raw=False)
         out.append(("bcast_desc", b.build(), 0, 64, 256))
         b = J.Builder(N=4); J.t_split(b, False)
-        out.append(("split", b.build(), 1, 64, 256))
-        b = J.Builder(N=3); J.t_pipe(b, "desc")
+        out.append(("split", b.build(), 0, 64, 256))
+        b = J.Builder(N=2); J.t_pipe(b, "desc")
         out.append(("pipe_again", b.build(), 1, 64, 256))
     return out
 
@@ -263,7 +265,8 @@ def _model_checks(ctx, d, res):
         interp, _ = jdfgen.validate(p)
         mod, cfg = mcgen.write_mc(d, name, "Exec", {"Prog": p, "AgainMax": again, "StartupIter": it, "StartupChunk": ch,
                                                    "LoopLE": False}, invariants=EXEC_INVARIANTS, deadlock=True)
-        r = ctx.tlc_check(d, mod, cfg, workers=4, timeout=1500, heap="4g")
+        r = ctx.tlc_check(d, mod, cfg, workers=(2 if ctx.quick else 4), timeout=1500, heap="4g",
+                          jvm=(JVM_SHORT if ctx.quick else ("-Xss64m",)))
         n = len(interp.order)
         if r.depth < 2 * n + 1:
             raise tlc.TLCError("vacuity guard: Exec on %s explored depth %d < %d" % (name, r.depth, 2 * n + 1))
@@ -271,7 +274,7 @@ def _model_checks(ctx, d, res):
     name, p, again, it, ch = small_programs(True)[1]
     mod, cfg = mcgen.write_mc(d, name + "_le", "Exec", {"Prog": p, "AgainMax": 0, "StartupIter": it, "StartupChunk": ch,
                                                        "LoopLE": True}, invariants=EXEC_INVARIANTS, deadlock=True)
-    r = ctx.tlc_check(d, mod, cfg, expect_ok=False, workers=2, timeout=600, heap="2g")
+    r = ctx.tlc_check(d, mod, cfg, expect_ok=False, workers=1, timeout=600, heap="2g", jvm=JVM_SHORT)
     if r.violated != "deadlock":
         raise tlc.TLCError("sensitivity self-test: Exec with `<=`-only loops must deadlock on a descending chain, got %r" % r.violated)
 
@@ -284,7 +287,8 @@ def cross_check_programs(ctx, entries, tag):
     with open(pf, "w") as f:
         for e in entries:
             f.write(jdfgen.to_json(e["prog"]) + "\n")
-    r = ctx.tlc_check("PTG", "ProgModel", "ProgModel.cfg", workers=1, env={"PROGS": pf}, timeout=1500, heap="4g")
+    r = ctx.tlc_check("PTG", "ProgModel", "ProgModel.cfg", workers=1, env={"PROGS": pf}, timeout=1500, heap="4g",
+                      jvm=JVM_SHORT)
     seen = {}
     for line in r.printed:
         h = tlc._parse_tla_string_list(line)
